@@ -67,6 +67,8 @@ def parse : List String → Option Op
       if !okRest then none else
       orMalformed do pure (.buf (UInt64.ofNat (← n.toNat?)) (← bytesOfHex d))
   | ["free"] => some .free
+  | ["freenull"] => some .malformed        -- release of objects that were never created: no effect, answered `skip`
+
   | _ => none
 
 def l2 (s : AesCtr.Stream Key) : String :=
